@@ -23,6 +23,7 @@ from props.vermodel import V, concretise
 
 CORE = ['/', '/a', '/b', '/{x}', '/{r:.*}', '/a/b', '/a/{x}', '/a/{y}', '/a/{r:.*}', '/{x}/a', '/{x}/{y}', '/{x}/{r:.*}']
 ODD = ['/{x}/{x}', '/{r:.*}/a', '/a/{s:.*}', '/a/']
+CASE_PAIRS = [('/{X}', '/{x}/a'), ('/a/{x}', '/a/{X}'), ('/{R:.*}', '/{r:.*}')]     # variable names are compared exactly
 KIND_PAIRS = [(a, b) for a in RL.KINDS for b in RL.KINDS]
 REQ_METHODS = ['GET', 'PUT', 'DELETE', 'get']
 
@@ -32,7 +33,7 @@ def family(tier, seed):
     rnd = random.Random(seed)
     tables = []
     pairs = [(p, q) for i, p in enumerate(CORE) for q in CORE[i:]] + [(p, q) for p in ODD for q in ['/a', '/a/{x}', '/{x}']] + \
-            [(p, p) for p in ODD]
+            [(p, p) for p in ODD] + CASE_PAIRS
     n = 0
     for p, q in pairs:
         for m2 in ('GET', 'PUT'):
@@ -458,7 +459,9 @@ class TableRun:
                     got_n = [[p.replace(':.*}', '}'), m_, i] for p, m_, i in natl]
                     if ver_ is None: got_n, want = sorted(got_n), sorted(want)
                     if got_n != want:
-                        raise Inconclusive(f'encoding-mismatch: native iterator for {case} yields {natl}, model expects {want}')
+                        # concrete table, concrete version, real iterator: it disagrees with the statement itself
+                        chk.counterexample(f'the real iterator yields {natl} at version {c[dv_.name] if ver_ is not None else None}, the statement expects {want}; '
+                                           f'table {[self.spec[i] for i in order]} versions {[e.json(c)["versions"] for e in self.eps]}', case, True, role='iter-witness')
 
     def report_iter(self, m, order, dv_, what):
         if m is None: return
@@ -531,9 +534,9 @@ def _worker(idx):
         tr.run(orders)
         sub.samples.append({'table': spec, 'orders': len(orders), 'paths': sub.paths})
     except Inconclusive as e:
-        return {'inconclusive': f'table {spec}: {e}'}
+        return dict(sub.summary(), inconclusive=f'table {spec}: {e}', table_s=time.time() - t0)
     except Unsupported as e:
-        return {'inconclusive': f'table {spec}: unsupported: {e}'}
+        return dict(sub.summary(), inconclusive=f'table {spec}: unsupported: {e}', table_s=time.time() - t0)
     except Exception as e:
         return {'inconclusive': f'table {spec}: internal error {e!r} {traceback.format_exc()[-1500:]}'}
     out = sub.summary()
@@ -563,7 +566,9 @@ def run(which, tier, replay_file=None, before_finish=None):
     slow = []
     with ctx.Pool(nproc) as pool:
         for res in pool.imap_unordered(_worker, range(len(tables)), chunksize=1):
-            if 'inconclusive' in res: incon.append(res['inconclusive']); continue
+            if 'inconclusive' in res:
+                incon.append(res['inconclusive'])
+                if 'samples' not in res: continue
             slow.append((round(res['table_s'], 1), res['samples'][-1].get('table') if res['samples'] else None))
             chk.absorb(res)
     slow.sort(key=lambda x: -x[0])
